@@ -39,6 +39,9 @@ CLAIMS = {
  "C13": ("Same engine as C12 over the DNS, RADIUS, DHCPv4, HTTP, SDP, SAP, RTP and MPEG-TS parsers: per access proved / reported / undecided (listed, not claimed); loop progress; short-circuit order; compression-pointer walks bounded by a jump counter.",
          "As C12; accesses whose capacity is a field of the packet itself are mostly outside the domain and listed as undecided/untracked.",
          "static analysis: relational abstract interpretation over the clang CFG, custom lints"),
+ "C14": ("Structural clauses only: Base64 alphabet = RFC 4648 and decode table = its inverse; pow10lst[k] = 10^k; every CRC-32 table regenerated from the polynomial in its name (256- and 16-entry forms); XML entity / HTTP method / reason-phrase tables agree with their length tables; the decimal digit counter keeps counting at exact powers of ten; no signed negation of the minimum; utf8_decode's reported length depends on its output. Round-trip / inverse equality of the produced bytes is NOT decided.",
+         "Trusts clang 14 front end; tables compared with values recomputed in python from the definitions.",
+         "static analysis: constant-table comparison, finite-domain comparator evaluation, custom lints (negation, reported length)"),
  "C16": ("Structural clauses only: every event registration call in threadpool_task.c pairs the timer event with the timer record and the I/O event with the I/O record; the read/write handler has a single non-cyclic user-callback site; in each transfer loop the transferred count, file offset and all buffer cursors advance by the same I/O result; partial totals are saved on every re-arm exit, folded in and cleared before the callback; re-arm only on CONTINUE; pre/post handler symmetry; stop removes both registrations, destroy stops before free; the immediate first transfer requires offset+transfer <= size. Byte-exact delivery and EOF/error/timeout reporting over schedules are NOT decided.",
          "Trusts clang 14 CFG; IO_BUF_* saturating macros not analysed.",
          "static analysis: call-site argument agreement table, loop-body update-set comparison, dominance, guard evaluation"),
